@@ -80,7 +80,9 @@ Section GenRun.
     let s := cf_shape cf in
     enc_fnormal s (st_u st)
     ++ (if is_smoother (cf_strat cf) then enc_fcond s (p_cond (st_post st)) else [])
-    ++ st_out2 st ++ st_run2 st.
+    ++ st_out2 st ++ st_run2 st
+    (* bookkeeping: time, step counter, number of MLE data *)
+    ++ [st_t st; fnat (st_nsteps st); fnat (st_ndata st)].
 
   Definition g_step (cf : @config F) (st : @sstate F) (dt : F) : option (list F) :=
     match solver_step ginv cf st dt with
